@@ -631,38 +631,39 @@ class CSSMatch(_DocumentNav):
     def find_bidi(self, el: bs4.Tag) -> int | None:
         """Get directionality from element text."""
 
-        for node in self.get_children(el, no_iframe=True):
+        # Walk the subtree in document order with an explicit stack (a tree may be nested deeper than the recursion limit).
+        stack = [self.get_children(el, no_iframe=True)]
+        while stack:
+            for node in stack[-1]:
 
-            # Analyze child text nodes
-            if self.is_tag(node):
+                # Analyze child text nodes
+                if self.is_tag(node):
 
-                # Avoid analyzing certain elements specified in the specification.
-                direction = DIR_MAP.get(util.lower(self.get_attribute_by_name(node, 'dir', '')), None)  # type: ignore[arg-type]
-                name = self.get_tag(node)  # type: ignore[arg-type]
-                if (
-                    (name and name in ('bdi', 'script', 'style', 'textarea', 'iframe')) or
-                    not self.is_html_tag(node) or  # type: ignore[arg-type]
-                    direction is not None
-                ):
-                    continue  # pragma: no cover
+                    # Avoid analyzing certain elements specified in the specification.
+                    direction = DIR_MAP.get(util.lower(self.get_attribute_by_name(node, 'dir', '')), None)  # type: ignore[arg-type]
+                    name = self.get_tag(node)  # type: ignore[arg-type]
+                    if (
+                        (name and name in ('bdi', 'script', 'style', 'textarea', 'iframe')) or
+                        not self.is_html_tag(node) or  # type: ignore[arg-type]
+                        direction is not None
+                    ):
+                        continue  # pragma: no cover
 
-                # Check directionality of this node's text
-                value = self.find_bidi(node)  # type: ignore[arg-type]
-                if value is not None:
-                    return value
+                    # Check directionality of this node's text
+                    stack.append(self.get_children(node, no_iframe=True))  # type: ignore[arg-type]
+                    break
 
-                # Direction could not be determined
-                continue  # pragma: no cover
+                # Skip `doctype` comments, etc.
+                if self.is_special_string(node):
+                    continue
 
-            # Skip `doctype` comments, etc.
-            if self.is_special_string(node):
-                continue
-
-            # Analyze text nodes for directionality.
-            for c in node:  # type: ignore[attr-defined]
-                bidi = unicodedata.bidirectional(c)
-                if bidi in ('AL', 'R', 'L'):
-                    return ct.SEL_DIR_LTR if bidi == 'L' else ct.SEL_DIR_RTL
+                # Analyze text nodes for directionality.
+                for c in node:  # type: ignore[attr-defined]
+                    bidi = unicodedata.bidirectional(c)
+                    if bidi in ('AL', 'R', 'L'):
+                        return ct.SEL_DIR_LTR if bidi == 'L' else ct.SEL_DIR_RTL
+            else:
+                stack.pop()
         return None
 
     def extended_language_filter(self, lang_range: str, lang_tag: str) -> bool:
@@ -1321,6 +1322,18 @@ class CSSMatch(_DocumentNav):
     def match_dir(self, el: bs4.Tag | None, directionality: int, inherit: bool = False) -> bool:
         """Check directionality."""
 
+        # An element without a direction of its own takes its parent's: walk up (a loop, as a tree may be nested
+        # deeper than the recursion limit).
+        while True:
+            match = self.match_own_dir(el, directionality, inherit)
+            if match is not None:
+                return match
+            el = self.get_parent(el, no_iframe=True)  # type: ignore[arg-type]
+            inherit = True
+
+    def match_own_dir(self, el: bs4.Tag | None, directionality: int, inherit: bool) -> bool | None:
+        """Check directionality of the element itself; `None` means its parent decides."""
+
         # If we have to match both left and right, we can't match either.
         if directionality & ct.SEL_DIR_LTR and directionality & ct.SEL_DIR_RTL:
             return False
@@ -1331,7 +1344,7 @@ class CSSMatch(_DocumentNav):
         if not self.is_html_tag(el):
             # Only HTML elements match, but an HTML element nested in foreign content (e.g. under `foreignObject`)
             # inherits its direction through its foreign ancestors.
-            return inherit and self.match_dir(self.get_parent(el, no_iframe=True), directionality, True)
+            return None if inherit else False
 
         # Element has defined direction of left to right or right to left
         direction = DIR_MAP.get(util.lower(self.get_attribute_by_name(el, 'dir', '')), None)
@@ -1368,7 +1381,7 @@ class CSSMatch(_DocumentNav):
                 return ct.SEL_DIR_LTR == directionality
             elif is_root:
                 return ct.SEL_DIR_LTR == directionality
-            return self.match_dir(self.get_parent(el, no_iframe=True), directionality, True)
+            return None
 
         # Auto handling for `bdi` and other non text inputs.
         if (is_bdi and direction is None) or direction == 0:
@@ -1377,10 +1390,10 @@ class CSSMatch(_DocumentNav):
                 return direction == directionality
             elif is_root:
                 return ct.SEL_DIR_LTR == directionality
-            return self.match_dir(self.get_parent(el, no_iframe=True), directionality, True)
+            return None
 
         # Match parents direction
-        return self.match_dir(self.get_parent(el, no_iframe=True), directionality, True)
+        return None
 
     def match_range(self, el: bs4.Tag, condition: int) -> bool:
         """
